@@ -13,6 +13,9 @@ Proved (all frontiers, all statement rows, all iterations):
   analyze_while_stmt : the body is analysed from [CFGNode(header, LOOP_TRUE)] with a FRESH collector; an else body is analysed with the ENCLOSING collector and replaces
       exactly the normal exit CFGNode(header, LOOP_FALSE) of the frontier (fix 36fdbc5)
   analyze_if_stmt : missing arms are stood in for by CFGNode(cond, IF_TRUE) / CFGNode(cond, IF_FALSE); the frontier is then-exits ++ else-exits
+  analyze_dowhile_stmt : the body is analysed from (a copy of) the incoming frontier plus CFGNode(header, LOOP_TRUE) with a fresh collector; the loop is closed on its own header
+  analyze_for_stmt : init block from the incoming frontier, condition block from the init exits (both with the enclosing collector), body from [CFGNode(header, LOOP_TRUE)] with a
+      fresh collector, update + condition blocks after the body with the loop's own collector, closed on its own header
 analyze_block is used through an ASSUMED contract (recursion: the handlers call it, it calls the handlers).
 """
 import ast
@@ -340,47 +343,60 @@ def build():
                               ('without-arms-the-frontier-is-[CFGNode(cond,-IF_TRUE),-CFGNode(cond,-IF_FALSE)]', if_result)],
                      modifies=lambda c: {'ghost:cfg_log': [c.old.attr(c.p.self, 'cfg')], 'list': (lambda a: z3.Or(a == S.addr(c.p.global_special_stmts), a >= c.old.next)),
                                          'attr:stmt': (lambda a: a >= c.old.next), 'attr:edge': (lambda a: a >= c.old.next)}))
+    # ---- do-while and counted for ------------------------------------------------------------------------------------------------------------------------------------------
+    def hook_ab_dowhile(ex, st, node):
+        frontier = ex.ev(node.args[1], st).t
+        collector = ex.ev(node.args[2], st).t
+        c = ex.ctx(st)
+        F, P = c.cur.list(frontier), c.pre.list(c.p.parent_stmts)
+        last = S.at(F, z3.Length(P))
+        ex.oblige(st, 'loop:the-do-while-body-is-analysed-from-the-incoming-frontier-plus-CFGNode(header,-LOOP_TRUE),-with-a-FRESH-collector', z3.And(
+            z3.Length(F) == z3.Length(P) + 1, S.forall([kq], z3.Implies(z3.And(kq >= 0, kq < z3.Length(P)), S.at(F, kq) == S.at(P, kq)), patterns=[S.at(F, kq)]),
+            is_node(last), c.cur.attr(last, 'stmt') == c.p.current_stmt, c.cur.attr(last, 'edge') == ik('LOOP_TRUE'),
+            frontier != c.p.parent_stmts, S.addr(collector) >= c.pre.next, z3.Length(c.cur.list(collector)) == 0,
+            ex.ev(node.args[0], st).t == block_of(S.addr(c.pre.attr(c.p.self, 'method_body')), c.pre.attr(c.p.current_stmt, 'body'))), kind='lemma')
+
+    def hook_close(ex, st, node):
+        """before the call of deal_with_last_stmts_of_loop_body: the loop is closed on ITS OWN header, with its own collector and the enclosing one"""
+        calls = [n for n in ast.walk(node) if isinstance(n, ast.Call) and ast.unparse(n.func) == 'self.deal_with_last_stmts_of_loop_body']
+        a = calls[0].args
+        hdr, own, outer = ex.ev(a[0], st).t, ex.ev(a[2], st).t, ex.ev(a[3], st).t
+        c = ex.ctx(st)
+        ex.oblige(st, 'loop:the-loop-is-closed-on-its-own-header-with-its-own-collector;-what-is-left-escapes-to-the-enclosing-collector',
+                  z3.And(hdr == c.p.current_stmt, S.addr(own) >= c.pre.next, outer == c.p.global_special_stmts), kind='lemma')
+    reg.add(Contract(CF, 'ControlFlowAnalysis.analyze_dowhile_stmt', WP, returns=Tuple(List(Any), Int),
+                     requires=[('frontier-and-collector-are-different-lists', lambda c: c.p.parent_stmts != c.p.global_special_stmts)],
+                     ghost_hooks={'before_stmt:last_stmts_of_body = self.analyze_block(': CallHook(hook_ab_dowhile), 'before_stmt:last_stmts = self.deal_with_last_stmts_of_loop_body(': hook_close},
+                     ensures=[('the-incoming-frontier-list-itself-is-not-modified', lambda c: c.new.list(c.p.parent_stmts) == c.old.list(c.p.parent_stmts))],
+                     modifies=lambda c: {'ghost:cfg_log': [c.old.attr(c.p.self, 'cfg')], 'list': (lambda a: z3.Or(a == S.addr(c.p.global_special_stmts), a >= c.old.next)),
+                                         'attr:stmt': (lambda a: a >= c.old.next), 'attr:edge': (lambda a: a >= c.old.next)}))
+    reg.classes['GIRRow'].fields.update(dict(init_body=Any, condition_prebody=Any, update_body=Any))
+
+    def hook_ab_for(ex, st, node):
+        n_call = st.ghost.get('ab_calls', 0)
+        st.ghost['ab_calls'] = n_call + 1
+        frontier = ex.ev(node.args[1], st).t
+        collector = ex.ev(node.args[2], st).t
+        blk = ex.ev(node.args[0], st).t
+        c = ex.ctx(st)
+        mb = S.addr(c.pre.attr(c.p.self, 'method_body'))
+        blk_is = lambda f: blk == block_of(mb, c.pre.attr(c.p.current_stmt, f))
+        if n_call == 0:
+            ex.oblige(st, 'for:the-init-block-is-analysed-from-the-incoming-frontier-with-the-enclosing-collector',
+                      z3.And(frontier == c.p.parent_stmts, collector == c.p.global_special_stmts, blk_is('init_body')), kind='lemma')
+        elif n_call == 1:
+            ex.oblige(st, 'for:the-condition-block-is-analysed-from-the-exits-of-the-init-block-with-the-enclosing-collector',
+                      z3.And(frontier == st.env['last_stmts'].t, collector == c.p.global_special_stmts, blk_is('condition_prebody')), kind='lemma')
+        elif n_call == 2:
+            ex.oblige(st, 'for:the-body-is-analysed-from-[CFGNode(header,-LOOP_TRUE)]-with-a-FRESH-collector',
+                      z3.And(single(c, frontier, c.p.current_stmt, 'LOOP_TRUE'), S.addr(collector) >= c.pre.next, z3.Length(c.cur.list(collector)) == 0, blk_is('body')), kind='lemma')
+        else:
+            ex.oblige(st, 'for:update-and-condition-blocks-after-the-body-are-analysed-from-the-running-frontier-with-the-loop\'s-own-collector',
+                      z3.And(frontier == st.env['last_stmts'].t, collector == st.env['new_special_stmts'].t, blk_is('update_body' if n_call == 3 else 'condition_prebody')), kind='lemma')
+    reg.add(Contract(CF, 'ControlFlowAnalysis.analyze_for_stmt', WP, returns=Tuple(List(Any), Int),
+                     requires=[('frontier-and-collector-are-different-lists', lambda c: c.p.parent_stmts != c.p.global_special_stmts)],
+                     ghost_hooks={'before_stmt:last_stmts = self.analyze_block(': CallHook(hook_ab_for), 'before_stmt:last_stmts_condition_prebody = self.analyze_block(': CallHook(hook_ab_for),
+                                  'before_stmt:last_stmts = self.deal_with_last_stmts_of_loop_body(': hook_close},
+                     modifies=lambda c: {'ghost:cfg_log': [c.old.attr(c.p.self, 'cfg')], 'list': (lambda a: z3.Or(a == S.addr(c.p.global_special_stmts), a >= c.old.next, a == S.addr(c.p.parent_stmts))),
+                                         'attr:stmt': (lambda a: a >= c.old.next), 'attr:edge': (lambda a: a >= c.old.next)}))
     return reg
-
-
-def bounded_family(tier, seed):
-    """BOUNDED stand-in (never counted as proved) for what the proofs assume — analyze_block's recursion and the composition of the handlers: every method body of a small
-    program family through the REAL ControlFlowAnalysis, DataModel and GIRBlockViewer against a reference interpreter (all branch-decision vectors)"""
-    from lianvc import runner
-    size = '3' if tier == 'quick' else '5'
-    out, err = runner.run_replay(REPLAY, ['--bounded', size], timeout=3000)
-    if out is None:
-        return dict(name='composition of the CFG handlers vs reference executions', failed=True, is_violation=False, detail=err, bound=f'size {size}')
-    return dict(name='composition of the CFG handlers (analyze_block recursion) vs reference executions', kind='bounded', bound=out.get('bound'), cases=out.get('cases'),
-                failed=bool(out.get('witnesses')), is_violation=True, detail=out.get('witnesses', [])[:2], failing_input=(out.get('witnesses') or [None])[0])
-
-
-bounded_family.quick = True
-BOUNDED_CHECKS = [bounded_family]
-
-ASSUMPTIONS = [
-    'analyze_block is under an ASSUMED contract (append-only effects on the edge log and the collector; result is the given frontier or a fresh list): the handlers call it and it '
-    'dispatches back to the handlers; the induction over the block structure (First/Exits/Step of the structured semantics, "every execution is a path") is NOT proved — it is '
-    'checked only by the bounded stand-in on a small program family',
-    'the graph is read through the ghost log of ControlFlowGraph.add_edge calls; that each logged call adds the corresponding networkx edges is BasicGraph.add_edge (not under '
-    'contract: it normalises rows/ids/lists and recurses over lists) + _add_one_edge (proved); self-loops are dropped by _add_one_edge (a loop whose body frontier is the header '
-    'itself gets no header->header edge)',
-    'analyze_dowhile_stmt, analyze_for_stmt, analyze_switch_stmt, analyze_try_stmt, analyze_yield_stmt, analyze_method_decl_stmt, analyze_decl_stmt, analyze_init_block, analyze() '
-    '(exit edge, goto/label rewiring, merge_multiple_edges_between_two_nodes) are not under contract',
-    'GIRBlockViewer.read_block / len / boundary_of_multi_blocks are uninterpreted; block ids are ints, NaN or None; statement rows are heap objects with the listed columns',
-    'nothing about the frontends: the Python frontend drops the else body of `for ... else` (its statements are missing from the GIR); "in every frontend" is not decided',
-]
-EXPLANATION = ('Deductive proof on the real control_flow.py of the edge-producing handlers (frontier linking, return/break/continue, loop closing with LOOP_BACK/CONTINUE edges, '
-               'breaks and the normal exit in the result, while/for-in with else bodies, if arms) over a ghost log of add_edge calls, and of _add_one_edge against the networkx '
-               'edge relation. The recursion through analyze_block is assumed; the composition is covered by a bounded stand-in (reference interpreter).')
-QUICK_CANARIES = {
-    'ControlFlowAnalysis.link_parent_stmts_to_current_stmt': ['negate-condition', 'delete-stmt[self.cfg.add_edge(node.stmt, current_stmt, node.edge)]'],
-    'ControlFlowAnalysis.analyze_return_stmt': ['delete-stmt[self.cfg.add_edge(current_stmt, -1, CONTROL_FLOW_KIND.RETURN)]', 'delete-stmt[self.link_parent_stmts_to_current_stmt(parent_stmts, current_stmt)]'],
-    'ControlFlowAnalysis.analyze_break_stmt': ['delete-stmt[global_special_stmts.append(current_stmt)]'],
-    'ControlFlowAnalysis.deal_with_last_stmts_of_loop_body': ['negate-condition', 'flip-comparison', 'delete-stmt[result.append(CFGNode(current_stmt, CONTROL_FLOW_KIND.LOOP_FALSE))]',
-                                                              'delete-stmt[del special_stmts[counter]]'],
-    'ControlFlowAnalysis.analyze_while_stmt': ['negate-condition', 'delete-stmt[last_stmts.pop()]'],
-    'BasicGraph._add_one_edge': ['flip-comparison', 'negate-condition'],
-}
-MIN_CANARY_KILL_RATIO = 0.6
-EQUIVALENT_MUTANTS = ('delete-stmt[return True] @L18', 'delete-stmt[return True] @L29')
